@@ -66,6 +66,22 @@ def run(ctx):
             rule_done(ctx, M, u)
         for u in units + pts:
             rule_scan(ctx, M, u)
+        if cfg != "core":
+            # the groups scan their key set: a live member whose key is lost (a stale entry of the removal queue, a key
+            # not inserted / wrongly removed) is never polled again although its wake-ups are forwarded
+            from . import c11, c12, grouplike
+            with ctx.renamed({"C11.*": "C01.SCAN", "C12.*": "C01.SCAN"}):
+                for gname in ("future_group", "stream_group"):
+                    grouplike.rule_insert(ctx, M, gname, "C01.SCAN")
+                    grouplike.rule_remove(ctx, M, gname, "C01.SCAN")
+                gu = grouplike.group_unit(M, "future_group")
+                if gu is not None:
+                    c11.rule_done(ctx, M, gu)
+                gu = grouplike.group_unit(M, "stream_group")
+                if gu is not None:
+                    c12.rule_endm(ctx, M, gu)
+                    c12.rule_drain(ctx, M, gu)
+                    c12.rule_item(ctx, M, gu)
         rule_insert_arm(ctx, M)
         rule_handout(ctx, M, units)
         rule_parent_kept(ctx, M)
